@@ -46,8 +46,8 @@ func runC08(c *core.Ctx) core.Meta {
 						c.ReportAt("R08.1", fn, q.Pos(), "count:dimension-mix", "a work-group count divides "+short(num)+" by "+short(den)+": grid size and work-group size of different dimensions")
 					}
 					// form A: (g-1)/w, result +1 ; form B: ((g+w)-1)/w
-					formA := regexp.MustCompile(`^\(.*GridSize[XYZ]\)?-1\)$`).MatchString(num) && !strings.Contains(num, "WorkgroupSize")
-					formB := strings.Contains(num, "WorkgroupSize") && regexp.MustCompile(`\+.*WorkgroupSize[XYZ].*-1\)$`).MatchString(num)
+					formA := core.ProvMatch(regexp.MustCompile(`^\(.*GridSize[XYZ]\)?-1\)$`), num) && !strings.Contains(num, "WorkgroupSize")
+					formB := strings.Contains(num, "WorkgroupSize") && core.ProvMatch(regexp.MustCompile(`\+.*WorkgroupSize[XYZ].*-1\)$`), num)
 					okForm := false
 					if formA {
 						// the quotient must be incremented by 1
@@ -101,7 +101,7 @@ func runC08(c *core.Ctx) core.Meta {
 						pv := prov.Of(s.Val)
 						id := strings.ToLower(D) + "id"
 						want := "kernels.min((recv.packet.GridSize" + D + "-(recv." + id + "*recv.packet.WorkgroupSize" + D + ")),recv.packet.WorkgroupSize" + D + ")"
-						ok2 := pv == want
+						ok2 := core.ProvEq(pv, want)
 						st2.Ob(ok2)
 						st2.Sample("NextWG: CurrSize%s = %s", D, short(pv))
 						if !ok2 {
@@ -227,7 +227,7 @@ func runC08(c *core.Ctx) core.Meta {
 				st3.Instances++
 				okQ := g.Guarded(n, CmpCut(func(_ *core.Node, op token.Token, x, y ssa.Value) int {
 					px, py := prov.Of(x), prov.Of(y)
-					isQuo := func(s string) bool { return regexp.MustCompile(`/64\)$`).MatchString(s) }
+					isQuo := func(s string) bool { return core.ProvMatch(regexp.MustCompile(`/64\)$`), s) }
 					if isQuo(px) || isQuo(py) {
 						if op == token.NEQ {
 							return 1
@@ -247,7 +247,7 @@ func runC08(c *core.Ctx) core.Meta {
 			if s, ok := storeToField(n.Instr, "Wavefront.InitExecMask"); ok {
 				st3.Instances++
 				pv := prov.Of(s.Val)
-				m := regexp.MustCompile(`\|\(1<<\((.*)%64\)\)\)$`).FindStringSubmatch(pv)
+				m := core.ProvFind(regexp.MustCompile(`\|\(1<<\((.*)%64\)\)\)$`), pv)
 				st3.Ob(m != nil)
 				if m == nil {
 					c.ReportAt("R08.3", fn, s.Pos(), "exec-bit", "the initial EXEC mask is updated as "+short(pv)+", not by OR-ing 1 << (in-group id % 64)")
@@ -258,7 +258,7 @@ func runC08(c *core.Ctx) core.Meta {
 			if s, ok := storeToField(n.Instr, "Wavefront.FirstWiFlatID"); ok {
 				st3.Instances++
 				pv := prov.Of(s.Val)
-				ok2 := regexp.MustCompile(`/64\)\*64\)$`).MatchString(pv)
+				ok2 := core.ProvMatch(regexp.MustCompile(`/64\)\*64\)$`), pv)
 				st3.Ob(ok2)
 				if !ok2 {
 					c.ReportAt("R08.3", fn, s.Pos(), "first-flat-id", "the wavefront's first flat id is "+short(pv)+", not (in-group id / 64) * 64: lane k of the wavefront would not be in-group id first+k")
@@ -266,7 +266,7 @@ func runC08(c *core.Ctx) core.Meta {
 			}
 		}
 		st3.Instances++
-		okID := regexp.MustCompile(`^\(\(\(.*\.IDZ\*.*\.SizeX\)\*.*\.SizeY\)\+\(.*\.IDY\*.*\.SizeX\)\)\+.*\.IDX\)$`).MatchString(idExpr)
+		okID := core.ProvMatch(regexp.MustCompile(`^\(\(\(.*\.IDZ\*.*\.SizeX\)\*.*\.SizeY\)\+\(.*\.IDY\*.*\.SizeX\)\)\+.*\.IDX\)$`), idExpr)
 		st3.Ob(okID)
 		st3.Sample("formWavefronts: in-group id = %s", short(idExpr))
 		if !okID {
@@ -290,7 +290,8 @@ func runC08(c *core.Ctx) core.Meta {
 			st3.Instances++
 			ok := false
 			for _, l := range lane {
-				if l == want[k] {
+				// the plane size may be written SizeX*SizeY or SizeY*SizeX
+				if l == want[k] || l == strings.ReplaceAll(want[k], "(wf.WG.SizeX*wf.WG.SizeY)", "(wf.WG.SizeY*wf.WG.SizeX)") {
 					ok = true
 				}
 			}
@@ -348,10 +349,14 @@ func checkWGDistribution(c *core.Ctx, prov *core.Prov, rule string) {
 		for _, n := range g.Nodes {
 			if bo, ok := n.Instr.(*ssa.BinOp); ok && (bo.Op == token.GEQ || bo.Op == token.LSS || bo.Op == token.LEQ || bo.Op == token.GTR || bo.Op == token.EQL || bo.Op == token.NEQ) {
 				px, py := prov.Of(bo.X), prov.Of(bo.Y)
+				bop := bo.Op
+				if strings.Contains(px, "wgDist") && !strings.Contains(py, "wgDist") {
+					px, py, bop = py, px, mirrorCmp(bop) // dist[i] <= id is id >= dist[i]
+				}
 				if strings.Contains(py, "wgDist") {
 					st4.Instances++
 					flat = px
-					okR := (bo.Op == token.GEQ && regexp.MustCompile(`\[\*?free:currentGPUIndex\]$`).MatchString(py)) || (bo.Op == token.LSS && regexp.MustCompile(`\[\(\*?free:currentGPUIndex\+1\)\]$`).MatchString(py))
+					okR := (bop == token.GEQ && core.ProvMatch(regexp.MustCompile(`\[\*?free:currentGPUIndex\]$`), py)) || (bop == token.LSS && core.ProvMatch(regexp.MustCompile(`\[\(\*?free:currentGPUIndex\+1\)\]$`), py))
 					st4.Ob(okR)
 					if !okR {
 						c.ReportAt(rule, fn, bo.Pos(), "filter:range", "the filter compares the flattened id with "+short(py)+" using "+bo.Op.String()+": each GPU must accept exactly [dist[i], dist[i+1])")
@@ -360,7 +365,7 @@ func checkWGDistribution(c *core.Ctx, prov *core.Prov, rule string) {
 			}
 		}
 		st4.Instances++
-		okF := regexp.MustCompile(`^\(+param:wg\.IDZ\*.*GridSizeX.*\*.*GridSizeY.*\+\(param:wg\.IDY\*.*GridSizeX[^Y]*\)\)\+param:wg\.IDX\)$`).MatchString(flat)
+		okF := core.ProvMatch(regexp.MustCompile(`^\(+param:wg\.IDZ\*.*GridSizeX.*\*.*GridSizeY.*\+\(param:wg\.IDY\*.*GridSizeX[^Y]*\)\)\+param:wg\.IDX\)$`), flat)
 		st4.Ob(okF)
 		st4.Sample("WGFilter: flattened id = %s", short(flat))
 		if !okF {
@@ -376,12 +381,17 @@ func checkWGDistribution(c *core.Ctx, prov *core.Prov, rule string) {
 				if s, ok := in.(*ssa.Store); ok {
 					if ia, ok := s.Addr.(*ssa.IndexAddr); ok && strings.HasSuffix(prov.Of(ia.Index), "+1)") {
 						pv := prov.Of(s.Val)
-						if regexp.MustCompile(`^\(iter\(.*\)\+\(.*CUCount\*.*\)\)$`).MatchString(pv) {
+						if core.ProvMatch(regexp.MustCompile(`^\(iter\(.*\)\+\(.*CUCount\*.*\)\)$`), pv) {
 							cum = true
+						} else {
+							st4.Sample("distributeWGToGPUs: range end = %s", pv)
 						}
 					}
 				}
 				if bo, ok := in.(*ssa.BinOp); ok && bo.Op == token.LSS && strings.HasPrefix(prov.Of(bo.X), "iter(") && strings.Contains(prov.Of(bo.Y), "GridSize") {
+					guard = true
+				}
+				if bo, ok := in.(*ssa.BinOp); ok && bo.Op == token.GTR && strings.HasPrefix(prov.Of(bo.Y), "iter(") && strings.Contains(prov.Of(bo.X), "GridSize") {
 					guard = true
 				}
 			}
